@@ -103,7 +103,8 @@ impl C07 {
                 id: uuid(rng),
                 name: format!("g{}", i),
                 u_value: if i == 0 { 5.7 } else { ((rng.logu(0.3, 8.0) * 100.0).round() / 100.0) as f32 },
-                g_gln: rng.dec23(0.05, 0.95) as f32,
+                // the last glass of the pool is opaque (an opaque panel, door glass): a factor of 0 is a value, not an absence
+                g_gln: if i == 5 { 0.0 } else { rng.dec23(0.05, 0.95) as f32 },
             });
             db.frames.push(Frame {
                 id: uuid(rng),
